@@ -887,3 +887,42 @@ def enum_values(F, fn, operand, adt):
         else:
             out.add("other")
     return out
+
+
+def bool_local_edges(fn, local, want="true"):
+    """edges on which the boolean held in `local` (tracked through copies and `!`) has the wanted truth value"""
+    neg = {local: False}
+    changed = True
+    while changed:
+        changed = False
+        for st in fn.stmts:
+            if st.lhs_local in neg or "." in st.lhs:
+                continue
+            srcs = locals_in(st.text())
+            if not srcs or srcs[0] not in neg:
+                continue
+            if st.kind == "use":
+                neg[st.lhs_local] = neg[srcs[0]]
+                changed = True
+            elif st.kind.startswith("unop Not"):
+                neg[st.lhs_local] = not neg[srcs[0]]
+                changed = True
+        for c in fn.calls:
+            if c.dest_local in neg or not c.args:
+                continue
+            if re.search(r"(intrinsics|hint)::(un)?likely$", c.name):
+                a0 = locals_in(c.args[0])
+                if a0 and a0[0] in neg:
+                    neg[c.dest_local] = neg[a0[0]]
+                    changed = True
+    edges = set()
+    for bb in fn.terms:
+        info = switch_info(fn, bb)
+        if not info or info["kind"] != "bool" or info["place"] not in neg:
+            continue
+        w = (want == "true") != neg[info["place"]]
+        if w:
+            edges.add((bb, info["otherwise"]))
+        elif 0 in info["targets"]:
+            edges.add((bb, info["targets"][0]))
+    return edges
